@@ -48,7 +48,7 @@ P = {
   "Trusted: in-memory byte link (a cut severs both directions), transcript parser, reference decoder. For local Conn.Close the 'completely received' clause is not asserted.",
   "exhaustive crash-point enumeration over byte offsets + rapid-generated workloads, transcript-derived oracle"),
  "C09": ("exploration",
-  "Generated multi-stream sessions (1-4 streams, handler behaviours echo / push-first / push-only / read-only, 0-30 messages each way up to 66 KB, interleaved unary calls and pings) over a frame link whose server-to-client direction is held and released immediately, as bursts right behind the open acknowledgement, or one frame at a time. Oracle: per stream and direction the sequence read equals the sequence written; no empty, foreign, duplicate or extra message; unary replies are the caller's own.",
+  "Generated multi-stream sessions (1-4 streams, handler behaviours echo / push-first / push-only / read-only, 0-30 messages each way up to 66 KB, interleaved unary calls and pings) over a frame link whose server-to-client direction is held and released immediately, as bursts right behind the open acknowledgement, or one frame at a time; a quarter of the cases run over real unix sockets instead, half of those against a poll-mode server. Oracle: per stream and direction the sequence read equals the sequence written; no empty, foreign, duplicate or extra message; unary replies are the caller's own.",
   "Trusted: frame link (never reorders), per-message identity (stream, direction, index). Loss = not arrived after 15 s, must reproduce in isolation.",
   "property-based testing (rapid) with harness-owned delivery schedule and sequence-equality oracle"),
  "C10": ("fault_enumeration",
